@@ -332,3 +332,29 @@ SPECS += [
          slice={"start": "self._check_status(", "end": "self._check_status(comp, [ComponentStatus.FINALIZED])"},
          conds={"isinstance(comp, ITimeComponent)": "True"}, **LC_SITE),
 ]
+
+
+# ---- schedule.py : which adapters the composition finalizes (C03: every adapter on a link exactly once) -----------
+ADSET = "Set[Obj]"
+SPECS += [
+    dict(lean="collect_adapters_input", path="schedule.py", qual="_collect_adapters_input", group="Collect",
+         params={"inp": "Obj", "out_adapters": ADSET}, mut_params=["out_adapters"], recursive=True, ret="Unit",
+         locals={"src": "Obj"}, conds={"src is None": "(h.hasSource inp = false)"},
+         calls={"_collect_adapters_input": {"lean": "collect_adapters_input", "args": [0, 1], "argtypes": ["Obj", ADSET],
+                                            "stmt": True, "heap": True, "rec": True, "param_updates": ["out_adapters"]}},
+         props=["C03"], **SCHED_COMMON),
+    dict(lean="collect_adapters_output", path="schedule.py", qual="_collect_adapters_output", group="Collect",
+         params={"out": "Obj", "out_adapters": ADSET}, mut_params=["out_adapters"], recursive=True, ret="Unit",
+         calls={"_collect_adapters_output": {"lean": "collect_adapters_output", "args": [0, 1], "argtypes": ["Obj", ADSET],
+                                             "stmt": True, "heap": True, "rec": True, "param_updates": ["out_adapters"]}},
+         props=["C03"], **SCHED_COMMON),
+    dict(lean="collect_adapters", path="schedule.py", qual="Composition._collect_adapters", group="Collect",
+         fields={"_components": "List[Obj]", "_adapters": ADSET}, ret="Unit",
+         consts={"comp.inputs.items()": ("(List.map (fun i => ((), i)) (h.inputs comp))", "List[Tuple[Unit,Obj]]"),
+                 "comp.outputs.items()": ("(List.map (fun i => ((), i)) (h.outputs comp))", "List[Tuple[Unit,Obj]]")},
+         calls={"_collect_adapters_input": {"lean": "collect_adapters_input", "args": [0, 1], "argtypes": ["Obj", ADSET],
+                                            "stmt": True, "heap": True, "fuel": "(h.size + 1)", "updates": ["_adapters"]},
+                "_collect_adapters_output": {"lean": "collect_adapters_output", "args": [0, 1], "argtypes": ["Obj", ADSET],
+                                             "stmt": True, "heap": True, "fuel": "(h.size + 1)", "updates": ["_adapters"]}},
+         props=["C03"], **SCHED_COMMON),
+]
